@@ -22,9 +22,7 @@
      oracle [x509_ok].  No "elements are bytes" (wfb) hypothesis is needed.
    - The one side condition is [lenN bs < two64]: a Go slice is shorter than
      2^63, while the model's input is an unbounded list.  It cannot be
-     dropped: on a (physically impossible) list longer than 2^64 a section
-     length of 2^64-1 would pass the in-file check and wrap the model's
-     uint64 offset.
+     dropped from the model-level statements: see size_condition_needed.
    - [load_header] / [load_body] (Proofs/BundleReadLayout.v) split
      load_metadata into "everything before the first section" and "the checks
      on the table plus the section loop"; [load_metadata_split] is that
@@ -53,6 +51,16 @@ Theorem read_terminates : forall (x509_ok : bytes -> bool) (bs : bytes),
   lenN bs < two64 -> b_read x509_ok bs <> Fuel.
 Proof. exact BundleReadBounds.read_terminates. Qed.
 Print Assumptions read_terminates.
+
+(* why [lenN bs < two64] is there: on a list of more than 2^64 elements a
+   section of length 2^64-1 passes the in-file check and then wraps the
+   uint64 end offset; bs[38:37] panics.  No Go slice is that long. *)
+Theorem size_condition_needed : forall x509_ok v (bs : bytes) all t ss m,
+  two64 + 38 <= lenN bs ->
+  sections_fit [(sec_index, two64 - 1); (sec_responses, 0)] 38 (lenN bs) = true /\
+  load_sections x509_ok v bs all ((sec_index, two64 - 1) :: t) 38 ss m = Panic.
+Proof. exact BundleReadReject.huge_input_panics. Qed.
+Print Assumptions size_condition_needed.
 
 (* the loops on their own: the fuel the model hands them (one more than the
    number of remaining input bytes) always suffices, for every count up to
